@@ -181,7 +181,7 @@ type varKind struct {
 }
 
 var varKinds = []varKind{
-	{"%s", []string{"1", "ab", "x.y", "a-b", "é", "12", "A_b", "%20", "a b"}, []string{""}},
+	{"%s", []string{"1", "ab", "x.y", "a-b", "é", "12", "A_b", "%20", "a b", "a?b", "?", "what?", "a#b"}, []string{""}},
 	{"%s:\\d+", []string{"1", "007", "42"}, []string{"", "a", "1a", "-1"}},
 	{"%s:[1-9][0-9]*", []string{"1", "10", "999"}, []string{"0", "01", "a"}},
 	{"%s:[a-z-]+", []string{"a", "a-b", "zz"}, []string{"A", "a1", ""}},
